@@ -73,14 +73,14 @@ func init() {
 	// regular events
 	r1 := addEv("r1", true, pkP, 1, 1, nil, contentASCII)
 	r2 := addEv("r2", true, pkP, 1, 2, []mocrelay.Tag{T("e", r1.ID, "wss://relay.example", "reply"), T("p", pkQ), T("t", "tag"), T("title", "long name, not indexed")}, contentHTML+contentLineSep)
-	r3 := addEv("r3", true, pkQ, 1, 2, []mocrelay.Tag{T("e", r1.ID), T("t", "tag"), T("t", "tag"), T("t", "other")}, contentNUL+contentAstral)
+	r3 := addEv("r3", true, pkQ, 1, 2, []mocrelay.Tag{T("e", r1.ID), T("e", idU), T("t", "tag"), T("t", "tag"), T("t", "other")}, contentNUL+contentAstral) // two DIFFERENT values of #e and of #t: one event, several index rows per filter
 	// replaceable kind 0
 	addEv("v1", true, pkP, 0, 1, nil, content10k)
 	addEv("v2", true, pkP, 0, 2, []mocrelay.Tag{T("t", "tag")}, `{"name":"v2"}`)
 	addEv("w1", false, pkQ, 0, 1, nil, `{"name":"w1"}`)
 	addEv("v2tie", false, pkP, 0, 2, nil, `{"name":"v2tie"}`) // same address and timestamp as v2: unclaimed which survives
 	// addressable kind 30000
-	addEv("a1", true, pkP, 30000, 1, []mocrelay.Tag{T("d", "x"), T("t", "tag")}, "a1")
+	addEv("a1", true, pkP, 30000, 1, []mocrelay.Tag{T("d", "x"), T("t", "tag"), T("e", r1.ID)}, "a1") // older event carrying ONE of r3's #e / #t values
 	addEv("a3", true, pkP, 30000, 3, []mocrelay.Tag{T("d", "x", "extra"), T("e", r1.ID)}, "a3")
 	addEv("b2", false, pkQ, 30000, 2, []mocrelay.Tag{T("d", "x")}, "b2")
 	addEv("ad", false, pkP, 30000, 2, []mocrelay.Tag{T("d", "")}, "d empty")
